@@ -119,6 +119,7 @@ fn main() {
         u(&["-sd", &b]), u(&["--send-directory", &a]), u(&["-sd", &missing]),
         u(&["-s"]), u(&["--read-only"]), u(&["-r"]),
         u(&["--duplicate-packets", "3"]), u(&["--duplicate-packets", "254"]), u(&["--duplicate-packets", "255"]), u(&["--duplicate-packets", "x"]),
+        u(&["--duplicate-packets", "256"]), u(&["--duplicate-packets", "65535"]), u(&["--duplicate-packets", "65536"]), u(&["-p", "65536"]),
         u(&["--overwrite"]), u(&["--keep-on-error"]), u(&["bogus"]),
     ];
     let client_units: Vec<Vec<String>> = vec![
